@@ -9,4 +9,4 @@ WT=/tmp/mut-$$-$(date +%s%N)
 git -C /repo worktree add -q --detach "$WT" HEAD || exit 2
 trap 'git -C /repo worktree remove --force "$WT" >/dev/null 2>&1' EXIT
 ( cd "$WT" && git apply "$P" ) || { echo "patch does not apply"; exit 2; }
-PIKEMC_VERIF=$SNAP PIKEMC_SRC="$WT" PIKEMC_EVIDENCE_DIR=/tmp/mut-evidence $SNAP/bin/pikemc check "$ID" --tier "$TIER" 2>&1 | grep -E "^VIOLATION|^C[0-9]+ (quick|thorough):|HARNESS ERROR|^note" | head -40 | cut -c1-400
+PIKEMC_VERIF=$SNAP PIKEMC_SRC="$WT" PIKEMC_EVIDENCE_DIR=/tmp/mut-evidence $SNAP/bin/pikemc check "$ID" --tier "$TIER" 2>&1 | grep -a -E "^VIOLATION|^C[0-9]+ (quick|thorough):|HARNESS ERROR|^note" | head -40 | cut -c1-400
